@@ -157,3 +157,48 @@ Theorem C03_warc_busy_stops :
   end.
 Proof. exact busy_warc_stops. Qed.
 Print Assumptions C03_warc_busy_stops.
+
+(* ---- The rate limiter's share of "returns within bounded time" (Pipe/LimiterWait.v, on C13's bucket model
+   Rate/Bucket.v).  archiver.Stop() waits for the workers; a worker inside archive() first waits for the host's token in
+   BucketManager.Wait(), a polling loop that does not watch the context.  The wait is bounded by the bucket itself, in
+   EVERY reachable state: for every capacity c, configured rate r, creation instant, and every history h of polls,
+   failure statuses (5xx: rate halved [fails] times; 429/403/408/425: penalty) and successes at any instants up to T:
+   once the longest penalty (30 s) has run out after T and the time since then is worth n tokens at the floor rate
+   min(1/2, r) ([covered]), the polls of all n waiting goroutines are granted.  This discharges, for the limiter, the
+   environment hypothesis of the stage model above ("a worker that is processing a seed finishes"). ---- *)
+From ZenoV Require Import Rate.Bucket Pipe.LimiterWait Pipe.LimiterWaitHarness Pipe.LimiterWaitProofs.
+
+Theorem C03_limiter_wait_bounded : forall (c r : Q) (t0 : Z) (h : list op) (T t : Z) (n : nat),
+  (0 <= c)%Q -> (0 <= r)%Q -> (time_zero <= t0)%Z -> (t0 <= T)%Z -> before T h ->
+  (inject_Z (Z.of_nat n) <= c)%Q -> covered r (Z.of_nat n) T t ->
+  snd (polls n t (Bucket.final (new_bucket c r t0) h)) = Z.of_nat n.
+Proof. exact limiter_wait_bounded_lemma. Qed.
+Print Assumptions C03_limiter_wait_bounded.
+
+(* the usual configurations (at least half a token per second; the crawler's default and the harness's are 50):
+   every one of n waiting goroutines has its token 30 s + 2 s * n after the host's last answer *)
+Theorem C03_limiter_wait_bounded_usual : forall (c r : Q) (t0 : Z) (h : list op) (T t : Z) (n : nat),
+  (0 <= c)%Q -> (1 # 2 <= r)%Q -> (time_zero <= t0)%Z -> (t0 <= T)%Z -> before T h ->
+  (inject_Z (Z.of_nat n) <= c)%Q -> (T + wait_bound_ns (Z.of_nat n) <= t)%Z ->
+  snd (polls n t (Bucket.final (new_bucket c r t0) h)) = Z.of_nat n.
+Proof. exact limiter_wait_bounded_usual_lemma. Qed.
+Print Assumptions C03_limiter_wait_bounded_usual.
+
+(* the monitor of the "limwait" leg is the theorem's own statement: where its hypotheses (decided on the case's input)
+   hold, all n final polls are granted in the model - the monitor demands the same of the real bucket *)
+Theorem C03_limiter_monitor_is_theorem : forall cs : lcase,
+  hyps cs = true ->
+  snd (polls (Z.to_nat (lc_n cs)) (lc_t cs)
+         (Bucket.final (new_bucket (lc_cap cs) (lc_rate cs) (lc_t0 cs)) (map op_of (lc_ops cs)))) = lc_n cs.
+Proof. exact limwait_monitor_lemma. Qed.
+Print Assumptions C03_limiter_monitor_is_theorem.
+
+(* the bound rests on the refill floor: a 5xx branch without it (rate * 2^-(n(n+1)/2) after n answers) keeps a worker
+   waiting ten hours after six answers 503 of its host, where the code's bucket serves it after 32 s at the latest *)
+Theorem C03_limiter_wait_needs_floor_refuted :
+  before 60000000 six_503 /\
+  snd (try (60000000 + wait_bound_ns 1) (Bucket.final bucket150 six_503)) = true /\
+  snd (try (60000000 + wait_bound_ns 1) (final_nofloor bucket150 six_503)) = false /\
+  snd (try (60000000 + 10 * HOUR) (final_nofloor bucket150 six_503)) = false.
+Proof. exact limiter_wait_needs_floor_refuted. Qed.
+Print Assumptions C03_limiter_wait_needs_floor_refuted.
